@@ -302,6 +302,11 @@ def exit_clauses(run, ctx, env, res, where):
         elif msg == MSG["CALLBACK"]:
             cbr = run.ghost.get("cb_returns", [])
             add(f"{where}::msg_truthful[callback]", cbr[-1] if cbr else False, ("C04",))
+        elif msg == MSG["ABNORMAL"]:
+            # C01 (necessary condition, Algorithm 778): the run may only give up after a line search has failed
+            # with the memory already reset, i.e. along the projected steepest-descent direction
+            add(f"{where}::abnormal_only_after_memory_reset",
+                z3.And(dq_len(run, env.get("X")) == 1, dq_len(run, env.get("G")) == 1), ("C01",))
     add(f"{where}::nit_le_max(maxiter,nit0)", nit <= z3.If(maxiter >= ctx.nit0, maxiter, ctx.nit0), ("C04",))
     if cfg.jac == "callable":
         add(f"{where}::nfev_le_max(maxfun,n0)+1", nfev <= z3.If(maxfun >= ctx.n0, maxfun, ctx.n0) + 1, ("C04",))
